@@ -11,6 +11,9 @@ from .base import Check, Outcome, InvalidScenario
 from . import wcommon as W
 
 
+ODD_BREAKS = ["\x0b", "\x0c", "\x1c", "\x1d", "\x1e", "\x85", "\u2028", "\u2029"]
+
+
 class C17(Check):
     PROP = "C17"
     RULE = ("each run = one valid workspace with dependency chains + exactly one located event: a faulty statement from the "
@@ -36,6 +39,8 @@ class C17(Check):
             r0 = rng.random()
             if r0 < 0.08:
                 scn["event"] = {"k": "error", "name": "union-offset", "def": rng.choice(keys), "seed": rng.randrange(1 << 30)}
+            elif r0 < 0.2:
+                scn["event"] = {"k": "error", "name": "foreign-attr", "def": rng.choice(keys), "seed": rng.randrange(1 << 30)}
             elif r0 < 0.6:
                 names = [n for n, v in MU.RAW.items() if v[2] == "reject"] + sorted(MU.LAZY) + sorted(MU.FINAL)
                 scn["event"] = {"k": "error", "name": rng.choice(names), "def": rng.choice(keys), "seed": rng.randrange(1 << 30), "clone": rng.random() < 0.3}
@@ -48,6 +53,20 @@ class C17(Check):
             f.pop("tail", None)
             if rng.random() < 0.3:
                 f["lead"] = []  # a header comment must stay first; leading lines only shift when there is none
+            if rng.random() < 0.4:
+                # characters that some text tools treat as line boundaries but DSDL (and text-mode file reading) does not:
+                # inside a comment they must not shift any line number
+                ch = rng.choice(ODD_BREAKS)
+                if f.get("orphans"):
+                    k0 = rng.choice(sorted(f["orphans"]))
+                    f["orphans"][k0] = f["orphans"][k0] + " odd" + ch + "char" + (ch if rng.random() < 0.3 else "")
+                elif d["secs"][0].get("hdr") is None and not d.get("dep") and not d["secs"][0].get("union"):
+                    f["lead"] = ["# lead" + ch + "ing remark", ""]
+                elif d["secs"][0]["items"]:
+                    f.setdefault("orphans", {})["0:-1" if d["secs"][0].get("hdr") is not None else "0:0"] = "remark" + ch + ch + "x"
+            if rng.random() < 0.12:
+                f.pop("crlf", None)
+                f["cr"] = True  # classic Mac line endings
             scn["fmt"][k] = f
         return scn
 
@@ -73,6 +92,29 @@ class C17(Check):
                 j = rr.randrange(1, len(fidx))  # the raw line goes right before field number j (>= 1 variant precedes it)
                 s0["items"].insert(fidx[j], ["raw", "@assert _offset_.count >= 1", []])
                 sites.append((ev["def"], "%d:%d" % (si, fidx[j] + 1), None, "lazy"))
+                return ws, sites
+            if ev["name"] == "foreign-attr":
+                # an expression that asks ANOTHER (valid, visible) composite type for an attribute it does not have: the offending
+                # statement is the referring one, in this file - not the file that defines the other type
+                rr = random.Random(ev["seed"])
+                cands = [k for k, x in uni.defs.items() if k != ev["def"] and ev["def"] not in uni.closure([k]) and (d.get("dep") or not x.get("dep"))]
+                if not cands:
+                    return ws, []
+                tk = rr.choice(sorted(cands))
+                td = uni.defs[tk]
+                tname = "%s.%d.%d" % (td["name"], td["ver"][0], td["ver"][1])
+                fields = [it[2] for it in td["secs"][0]["items"] if it[0] == "f"]
+                attr = rr.choice(["NO_SUCH_CONST_", "nope_attr", "Request", "_extent", "min"] + fields[:2] + (["request", "response"] if T.is_service(td) else []))
+                text = rr.choice(["@assert %s.%s == 1", "@print %s.%s", "uint8 Q_FA = %s.%s", "uint8[<=%s.%s] q_fa", "@assert (%s.%s + 1) > 0"]) % (tname, attr)
+                si = rr.randrange(len(d["secs"]))
+                items = d["secs"][si]["items"]
+                idx = rr.randint(0, len(items))
+                if d["secs"][si].get("union") and text.startswith("uint8[") and False:
+                    return ws, []
+                items.insert(idx, ["raw", text, [tk]])
+                if text.startswith("uint8[") and isinstance(d["secs"][si].get("seal"), int):
+                    d["secs"][si]["seal"] += 8 * 4096
+                sites.append((ev["def"], "%d:%d" % (si, idx), None, "immediate"))
                 return ws, sites
             pos = MU.inject_raw(random.Random(ev["seed"]), d, ev["name"])
             if pos is None:
@@ -144,7 +186,7 @@ class C17(Check):
         try:
             text_to_key: dict[str, str | None] = {}
             for k, t in w.texts.items():
-                tt = t.replace("\r\n", "\n")
+                tt = t.replace("\r\n", "\n").replace("\r", "\n")
                 text_to_key[tt] = None if tt in text_to_key else k
             is_err = scn["event"]["k"] == "error"
             for i, op in enumerate(reads):
@@ -182,7 +224,7 @@ class C17(Check):
                                  "path:%s:%s" % (klass, how))
                         continue
                     want_line = w.lmaps[key].get(tag)
-                    nlines = w.texts[key].count("\n") + 1
+                    nlines = w.texts[key].replace("\r\n", "\n").replace("\r", "\n").count("\n") + 1
                     line = ei.get("line")
                     follows = self._follows(w.texts[key], want_line)
                     out.shapes.append(digest(["error", scn["event"]["name"], how, follows, min(self._depth(uni, targets, key), 3)]))
@@ -213,7 +255,7 @@ class C17(Check):
                     continue
                 ev_count: dict[str, int] = {}
                 for t in evals:
-                    k2 = text_to_key.get(t.replace("\r\n", "\n"))
+                    k2 = text_to_key.get(t.replace("\r\n", "\n").replace("\r", "\n"))
                     if k2:
                         ev_count[k2] = ev_count.get(k2, 0) + 1
                 for key, tag, payload, _kl in sites:
@@ -229,7 +271,7 @@ class C17(Check):
                     out.shapes.append(digest(["print", how, self._follows(w.texts[key], want_line), min(self._depth(uni, targets, key), 3), len(got)]))
                     if want_line != 1 and how == "dependency":
                         out.nontrivial = True
-                    if probe_ok and text_to_key.get(w.texts[key].replace("\r\n", "\n")) == key:
+                    if probe_ok and text_to_key.get(w.texts[key].replace("\r\n", "\n").replace("\r", "\n")) == key:
                         n_eval = ev_count.get(key, 0)
                         if len(got) != n_eval:
                             out.fail("C17.print-count", "read %d: directive in %s evaluated %d time(s) but delivered %d time(s)" % (i, want_file, n_eval, len(got)),
@@ -268,7 +310,7 @@ class C17(Check):
     def _follows(self, text: str, line: int | None) -> str:
         if not line:
             return "?"
-        lines = text.replace("\r\n", "\n").split("\n")
+        lines = text.replace("\r\n", "\n").replace("\r", "\n").split("\n")
         rest = lines[line:]
         if not rest or all(x == "" for x in rest):
             return "end"
